@@ -469,7 +469,7 @@ class Feedback:
 
     @classmethod
     def override(cls, report=MAIN_REPORT, **fields):
-        if cls._override_backups is None:
+        if cls.__dict__.get('_override_backups') is None:
             cls._override_backups = {}
         for field, new_value in fields.items():
             if field not in cls._override_backups:
